@@ -132,7 +132,7 @@ Theorem C15_instances :
   oracle_ok (c_ser c_st) (c_de c_st) (c_wf c_st) /\ oracle_ok (c_ser c_ns) (c_de c_ns) (c_wf c_ns) /\
   oracle_ok (c_ser c_sb) (c_de c_sb) (c_wf c_sb) /\
   prog_ok PID_A 8 DISC_FX /\ prog_ok PID_A 8 DISC_BV /\ prog_ok PID_B 1 DISC_ST /\ prog_ok PID_C 4 DISC_NS /\
-  prog_ok PID_A 8 DISC_SB.
+  prog_ok PID_A 8 DISC_SB /\ prog_ok PID_B 1 DISC_ZD.
 Proof. exact instances_ok. Qed.
 
 (* non-canonical encodings: BTreeSet<u8> is read from its elements in any order and with duplicates, and
